@@ -5,7 +5,7 @@ Each oracle returns a list of violation dicts {'prop','part','msg'}.  Oracles re
 boundary events and the shadow model*; the implementation's own tables are only the thing judged."""
 import math
 
-from .scenario import serial_bound, unit_factor
+from .scenario import machine_name, serial_bound, unit_factor
 from .trace import EPS, istep
 
 
@@ -25,7 +25,7 @@ def scenario_obs(tr):
 
 def machine_specs(tr):
     u = unit_factor(tr.sc.get('unit', 'seconds'))
-    return {f"m{i}": {'cpu': m['flops'] * u, 'bw': m['bw'] * u} for i, m in enumerate(tr.sc['machines'])}
+    return {machine_name(tr.sc, i): {'cpu': m['flops'] * u, 'bw': m['bw'] * u} for i, m in enumerate(tr.sc['machines'])}
 
 
 def workflow_view(tr):
@@ -340,19 +340,19 @@ def C08(tr):
         if rec['finish'] is not None and abs(rec['finish'] - (s['t'] + dur)) > EPS:
             out.append(V('C08', 'finish_time', f"{name}: telescope finished it at {rec['finish']}, began {s['t']} + duration {dur}"))
         # on time when idle
-        t0 = istep(planned)
-        if abs(planned - t0) < EPS and t0 in tr.snaps or t0 == 0:
+        t0 = math.ceil(planned - EPS)      # a planned start between two steps is on time at the first step after it
+        if t0 in tr.snaps or t0 == 0:
             snap = tr.snaps.get(t0)
-            others_due = [n for n, o2 in so.items() if n != name and o2['start'] / u <= planned + EPS
-                          and (tr.obs[n]['begin'] is None or tr.obs[n]['begin'] >= planned - EPS)]
+            others_due = [n for n, o2 in so.items() if n != name and o2['start'] / u <= t0 + EPS
+                          and (tr.obs[n]['begin'] is None or tr.obs[n]['begin'] >= t0 - EPS)]
             idle = snap is not None and snap['running_tasks'] == 0 and snap['scheduler_observation_queue'] == 0 \
                 and snap['hot_buffer'] == tr.hot_cap and snap['stored'] == 0 and snap['provisioned_observations'] == 0 \
                 and not others_due and not tr.tier_moves
             if idle:
                 tr.count('idle_due')
-                if abs(s['t'] - planned) > EPS:
+                if abs(s['t'] - t0) > EPS:
                     out.append(V('C08', 'late_when_idle', f"{name}: system idle at its planned start {planned} but it began at {s['t']}"))
-        if s['t'] > planned + EPS:
+        if s['t'] > t0 + EPS:
             tr.count('postponed_starts')
         else:
             tr.count('ontime_starts')
